@@ -45,7 +45,7 @@ def hRot : Handler := fun args impl => do
   -- oracles: every route against the reference right-handed rotation, and against each other
   let mut fails : List String := []
   let c := dcos deg; let s := dsin deg
-  let tol := 1e-12 * (1.0 + mag3 p)
+  let tol := F!(1e-12) * (F!(1.0) + mag3 p)
   for a in axes do
     let n := a.name
     let want := a.spec c s p
@@ -53,7 +53,7 @@ def hRot : Handler := fun args impl => do
     if !(p3Close r want tol) then
       fails := fails ++ [s!"rotated_{n}_is_right_handed_rotation:got={show3 r}:want={show3 want}"]
     let m ← impl.parse (n ++ "_mat") pt4
-    if !(p3Close m.asPt3 want tol && m.w == 1.0) then fails := fails ++ [s!"rot_{n}_matrix_is_right_handed_rotation"]
+    if !(p3Close m.asPt3 want tol && m.w == F!(1.0)) then fails := fails ++ [s!"rot_{n}_matrix_is_right_handed_rotation"]
     let m3 ← impl.parse (n ++ "_mat3") pt3
     if !(p3Close m3 want tol) then fails := fails ++ [s!"rot_{n}_matrix_times_pt3"]
     let v ← impl.parse (n ++ "_vec") pt4
@@ -68,18 +68,18 @@ def hRot : Handler := fun args impl => do
         fails := fails ++ [s!"list_or_polyhedron_rotate_{n}_differs"]
     | _, _ => fails := fails ++ [s!"list_rotate_{n}_changes_length"]
     -- isometry, composition, inverse
-    if !(close r.len2 p.len2 1e-12) then fails := fails ++ [s!"rotate_{n}_preserves_length"]
+    if !(close r.len2 p.len2 F!(1e-12)) then fails := fails ++ [s!"rotate_{n}_preserves_length"]
     let ab ← impl.parse (n ++ "_a_b") pt3; let sm ← impl.parse (n ++ "_sum") pt3
-    if !(p3Close ab sm (1e-9 * (1.0 + mag3 p))) then fails := fails ++ [s!"rotate_{n}_a_then_b_is_a_plus_b"]
+    if !(p3Close ab sm (F!(1e-9) * (F!(1.0) + mag3 p))) then fails := fails ++ [s!"rotate_{n}_a_then_b_is_a_plus_b"]
     let bk ← impl.parse (n ++ "_back") pt3
-    if !(p3Close bk p (1e-11 * (1.0 + mag3 p))) then fails := fails ++ [s!"rotate_{n}_minus_a_undoes_a"]
+    if !(p3Close bk p (F!(1e-11) * (F!(1.0) + mag3 p))) then fails := fails ++ [s!"rotate_{n}_minus_a_undoes_a"]
   let kv ← impl.parse "k_vec" pt4
   let want := Spec.rodrigues k c s p
-  if !(p3Close kv.asPt3 want (1e-11 * (1.0 + mag3 p))) then
+  if !(p3Close kv.asPt3 want (F!(1e-11) * (F!(1.0) + mag3 p))) then
     fails := fails ++ [s!"rot_vec_is_rodrigues:axis={show3 k}:got={show3 kv.asPt3}:want={show3 want}"]
-  if !(close kv.asPt3.len2 p.len2 1e-10) then fails := fails ++ ["rot_vec_preserves_length"]
+  if !(close kv.asPt3.len2 p.len2 F!(1e-10)) then fails := fails ++ ["rot_vec_preserves_length"]
   let kb ← impl.parse "k_back" pt4
-  if !(p3Close kb.asPt3 p (1e-10 * (1.0 + mag3 p))) then fails := fails ++ ["rot_vec_minus_a_undoes_a"]
+  if !(p3Close kb.asPt3 p (F!(1e-10) * (F!(1.0) + mag3 p))) then fails := fails ++ ["rot_vec_minus_a_undoes_a"]
   let r2 ← impl.parse "r2" pt2
   let w2 := Spec.rot2 c s p2
   if !((r2.x - w2.x).abs ≤ tol && (r2.y - w2.y).abs ≤ tol) then fails := fails ++ ["pt2_rotated_is_ccw_rotation"]
@@ -97,16 +97,16 @@ def hLook : Handler := fun args impl => do
   let a := m.x.asPt3; let b := m.y.asPt3; let c := m.z.asPt3
   let f := (Pt3.sub center eye).normalized
   let mut fails : List String := []
-  let tol := 1e-9
+  let tol := F!(1e-9)
   -- is this a case the property covers?  up not (nearly) parallel to f, or up = +Z and exactly vertical
   let w := Pt3.cross up.normalized f
-  let vertical := up.x == 0.0 && up.y == 0.0 && up.z > 0.0 && center.x == eye.x && center.y == eye.y
-  if mag3 w < 1e-6 && !vertical then
+  let vertical := up.x == F!(0.0) && up.y == F!(0.0) && up.z > F!(0.0) && center.x == eye.x && center.y == eye.y
+  if mag3 w < F!(1e-6) && !vertical then
     return (model, ["SKIP:up_nearly_parallel"])
-  if !((a.dot a - 1.0).abs ≤ tol && (b.dot b - 1.0).abs ≤ tol && (c.dot c - 1.0).abs ≤ tol
+  if !((a.dot a - F!(1.0)).abs ≤ tol && (b.dot b - F!(1.0)).abs ≤ tol && (c.dot c - F!(1.0)).abs ≤ tol
       && (a.dot b).abs ≤ tol && (a.dot c).abs ≤ tol && (b.dot c).abs ≤ tol) then
     fails := fails ++ ["look_at_columns_orthonormal"]
-  if !((a.dot (b.cross c) - 1.0).abs ≤ tol) then fails := fails ++ ["look_at_determinant_one"]
+  if !((a.dot (b.cross c) - F!(1.0)).abs ≤ tol) then fails := fails ++ ["look_at_determinant_one"]
   if !(p3Close c f tol) then fails := fails ++ [s!"look_at_takes_z_to_direction:got={show3 c}:want={show3 f}"]
   if !((a.dot up.normalized).abs ≤ tol) then fails := fails ++ ["look_at_x_perpendicular_to_up"]
   pure (model, fails)
